@@ -181,6 +181,12 @@ func run(c *core.Ctx) {
 			return
 		}
 	}
+	// size ladder: vertex / primitive counts around every power of two (thresholds a change may
+	// introduce — a bucket table, a chunked loop, a 16-bit id — lie far above S_mesh)
+	k.ladder()
+	if c.Expired() {
+		return
+	}
 	// Append over every ordered pair of a smaller scope (both operands vary)
 	var small []meshlib.Spec
 	meshlib.Enum(meshlib.EnumOpt{MaxV: 2, MaxP: 1, Topos: []string{"tri", "point"}, Mixes: []string{"all", "P", "PN", "none", "T1"}, AllPos: false},
@@ -238,4 +244,34 @@ func replay(c *core.Ctx) {
 		return
 	}
 	k.one(cs.Spec, cs.Spec.String(), sh, op, cs.P)
+}
+
+func (k checker) ladder() {
+	c := k.c
+	maxK := 10
+	if c.Thorough() {
+		maxK = 12
+	}
+	var sizes []int
+	for kk := 3; kk <= maxK; kk++ {
+		sizes = append(sizes, 1<<kk-1, 1<<kk, 1<<kk+1)
+	}
+	c.Bound("size_ladder", fmt.Sprintf("n = 2^k-1, 2^k, 2^k+1 primitives for k=3..%d (largest %d): welded strip (non-identity order, two material ranges, all attributes), palette strip (three weld classes), unwelded soup, reversed point cloud; every operation with its default parameter variants", maxK, sizes[len(sizes)-1]))
+	for _, n := range sizes {
+		for _, s := range ml.LadderSpecs(n) {
+			if !c.Next() {
+				continue
+			}
+			if c.Expired() {
+				return
+			}
+			sh := ml.ShapeOfSpec(s)
+			skey := fmt.Sprintf("ladder %s n=%d mix=%s pal=%v", s.Topo, n, s.Mix, s.Pos != nil)
+			for _, op := range ml.Alphabet {
+				for _, p := range op.Variants(sh, false) {
+					k.one(s, skey, sh, op, p)
+				}
+			}
+		}
+	}
 }
